@@ -162,7 +162,7 @@ def one_case(seed):
                 elif col == 'n':
                     r[col] = rnd.choice([0, 1, -2, 1.5, 1000000, 2.25, 1e21, 0.001])
                 elif col == 's':
-                    r[col] = rnd.choice(['x', 'a,b', 'say "hi"', 'x y', 'O\'Neil', '2024-02-30', '2023-13-01', '2024-02-30T10:00:00Z', '2023-04-31T00:00:00+02:00', '2024-01-01T24:30:00Z', '2024-06-01T10:61:00-05:00', 'twelve', '1.0]', 'etc., z', '12abc', 'tru'])
+                    r[col] = rnd.choice(['x', 'a,b', 'say "hi"', 'x y', 'O\'Neil', 'back\\slash', 'ends with \\', '\\', 'a\\"b', '2024-02-30', '2023-13-01', '2024-02-30T10:00:00Z', '2023-04-31T00:00:00+02:00', '2024-01-01T24:30:00Z', '2024-06-01T10:61:00-05:00', 'twelve', '1.0]', 'etc., z', '12abc', 'tru'])
                 elif col == 'b':
                     r[col] = rnd.choice([True, False])
                 elif col == 'd':
